@@ -1248,6 +1248,14 @@ class RealBackend(object):
                                   % (cm.cid, cm.owner.token, bid))
         self.prio_log = []
         self.sched_stack_push(batch)
+        bc = self.spec.get("faults", {}).get("before_hook_cancels")
+        if bc and self.probes["sched_flush"] == bc and not batch.is_computed():
+            # a before-flush subscriber (e.g. a circuit breaker) cancels the batch that is about to
+            # be flushed: the flush cannot happen any more, the after event still has to fire
+            self.fired("before_flush_hook_cancels_batch")
+            e = SimError("bc:%d" % bc)
+            self.errors[e.tag] = e
+            batch.cancel(e)
         bf = self.spec.get("faults", {}).get("before_hook_raises")
         if bf and self.probes["sched_flush"] == bf:
             self.fired("before_flush_hook_raises")
